@@ -27,6 +27,16 @@ CHECKS = {
         note="Trusted: Lean kernel + 3 standard axioms; dict-keyed-by-node = map keyed by object identity under the "
              "statement's precondition (all nodes registered => distinct ids); hand-written model of tree.py tied by correspondence.",
         design="5/C06"),
+    "C07": dict(
+        technique="Lean 4 proof: bottom-up matcher over Tree tables = top-down documented semantics `sat` (reversal theorem), findall worklist sound/complete/duplicate-free w.r.t. `sat` + differential correspondence (parse, findall, find, match on every node) vs real ASTXpath",
+        text="Theorems (every tree without repeated objects, every element list): match(root, n) computed from the Tree tables = sat(chain of n); "
+             "findall yields exactly (and once) the positions whose chain satisfies sat; find = head of findall; hence n in findall iff match. "
+             "The parser (text -> elements, all index digits significant, whitespace) is modelled and compared with the real lark-based "
+             "parser on every generated text but not yet proved against a renderer (partial). Correspondence compares elements, findall order, "
+             "find and match for every node on seeded trees with tuples up to 14 and derived + random + mutated xpaths.",
+        note="Trusted: Lean kernel + 3 axioms; lark's LALR/contextual lexer re-modelled by hand; dict de-duplication keyed by object identity; "
+             "model tied to /repo by correspondence only. Partial: no parse_render theorem.",
+        design="5/C07"),
 }
 
 TODO_REASON = "check not built yet in this revision (planned, see DESIGN.md section 5); no claim is made"
